@@ -90,6 +90,14 @@ func (h *histProp) Plan(tier string, seed int64) []core.Segment {
 				tp = 6
 			}
 			segs = append(segs, core.Segment{Kind: "twophase:" + t, N: tp * tierScale(tier, 10), Chunk: 2})
+			// Shrink between the blocks of one big fill: hundreds of
+			// kilobytes buffered, tens to hundreds of kilobytes still
+			// unparsed at every Shrink
+			bs := int64(6)
+			if sa {
+				bs = 2
+			}
+			segs = append(segs, core.Segment{Kind: "bigshrink:" + t, N: bs * tierScale(tier, 8), Chunk: 2})
 			if !sa {
 				// blocks larger than 64 KiB (also sizes that are no multiple
 				// of 64 KiB) with several of them buffered: every sequence
@@ -436,6 +444,29 @@ func (h *histProp) Gen(kind string, idx int64, seed int64, tier string) core.Cas
 			ops = append(ops, POp{K: "parse"})
 		}
 		pc = PCase{Cfg: c, Family: f, Stream: stream, Ops: ops}
+	case "bigshrink":
+		c := gen.SmallCfg(r, typ, o)
+		c.BufferSize = []int{0, 300000, 1 << 20, 500000}[r.Intn(4)]
+		c.ShrinkSize = []int{0, 1000, 32768, 100000}[r.Intn(4)]
+		c.BlockSize = []int{0, 16384, 32768, 65536, 50000}[r.Intn(5)]
+		c.WindowSize = []int{0, 1 << 16, 1 << 20}[r.Intn(3)]
+		n := 140000 + r.Intn(150000)
+		if typ == "GSAP" || typ == "OSAP" {
+			c.BufferSize, c.WindowSize = 300000, 1<<17
+			n = 100000 + r.Intn(60000)
+		}
+		fam, stream := gen.Bytes(r, 2*n, c.Hint())
+		ops := []POp{{K: "write", B: n}}
+		for j := 0; j < 12; j++ {
+			ops = append(ops, POp{K: "parse", A: r.Intn(2)}, POp{K: "shrink"})
+			if h.weights.Probe > 0 {
+				ops = append(ops, POp{K: "probe", A: r.Intn(6), B: 1 + r.Intn(8), C: r.Intn(3)})
+			}
+			if j == 5 {
+				ops = append(ops, POp{K: "write", B: 20000 + r.Intn(60000)})
+			}
+		}
+		pc = PCase{Cfg: c, Family: fam, Stream: stream, Ops: ops}
 	case "bigblocks":
 		var alpha []POp
 		for _, op := range shapeAlphabet(h.weights) {
